@@ -399,7 +399,12 @@ def normalise(tree, relpath):
         if getattr(tree, '_src', None) is None or not _is_reference_text(tree, relpath):
             done.extend('%s: %s' % (relpath, x) for x in inline.unroll_table_loops(tree, known_functions))
             done.extend('%s: %s' % (relpath, x) for x in inline.expand_constant_kwargs(tree))
-        done.extend('%s: %s' % (relpath, x) for x in inline.inline_helpers(tree, known_functions))
+        inl = inline.inline_helpers(tree, known_functions)
+        done.extend('%s: %s' % (relpath, x) for x in inl)
+        if inl:
+            # an argument substituted into a helper's body can complete a spelling the first pass normalises
+            # (`self.__class__(base, *superTags)` with superTags := X + (y,))
+            normal_form(tree)
     proven = as_reference(tree, relpath, done)
     for key, fn in functions(tree):
         if key == '__functions__' or key in proven or (key not in ref and key not in known_functions):
